@@ -105,6 +105,27 @@ impl ParseTracer for YieldTracer {
     }
 }
 
+thread_local! {
+    /// when set, every user function (check / extern) first runs this traced parse: a traced parse nested inside a
+    /// traced parse on the same thread, as a user function that uses a peginator parser itself would cause
+    pub static NESTED: RefCell<Option<(fn(&str, Mode) -> Real, String)>> = RefCell::new(None);
+    static IN_NESTED: std::cell::Cell<bool> = std::cell::Cell::new(false);
+}
+
+pub fn maybe_nested_traced_parse() {
+    if IN_NESTED.with(|c| c.get()) {
+        return;
+    }
+    let job = NESTED.with(|n| n.borrow().clone());
+    if let Some((f, input)) = job {
+        IN_NESTED.with(|c| c.set(true));
+        let saved = INPUT_LEN.with(|l| *l.borrow());
+        let _ = f(&input, Mode::Indented);
+        INPUT_LEN.with(|l| *l.borrow_mut() = saved);
+        IN_NESTED.with(|c| c.set(false));
+    }
+}
+
 pub fn take_trace() -> Vec<TEvent> {
     TRACE.with(|t| std::mem::take(&mut *t.borrow_mut()))
 }
